@@ -13,6 +13,7 @@ type Bounds struct {
 	MaxExecs int           // 0 = unlimited; if hit the result is not exhaustive
 	Deadline time.Time     // zero = none; if hit the result is not exhaustive
 	Horizon  int           // step horizon per execution
+	Prune    bool          // state-key pruning: do not branch again from a state (partial order of the prefix) already expanded with at least the same remaining budget
 }
 
 // Stats of one exploration.
@@ -22,6 +23,7 @@ type Stats struct {
 	Transitions int64           `json:"transitions"` // scheduling steps executed inside windows
 	Steps       int64           `json:"steps"`
 	Distinct    map[uint64]bool `json:"-"`
+	Pruned      int64           `json:"pruned"` // choice points not expanded because their state had been expanded before
 	Divergences int64           `json:"divergences"`
 	HorizonHits int64           `json:"horizon_hits"`
 	Exhaustive  bool            `json:"exhaustive"`
@@ -35,6 +37,7 @@ func (s *Stats) Merge(o *Stats) {
 	s.Transitions += o.Transitions
 	s.Steps += o.Steps
 	s.Divergences += o.Divergences
+	s.Pruned += o.Pruned
 	s.HorizonHits += o.HorizonHits
 	if o.MaxChoices > s.MaxChoices {
 		s.MaxChoices = o.MaxChoices
@@ -90,7 +93,9 @@ func Explore(body func(), check Check, b Bounds) (*Stats, *Violation) {
 func ExploreFrom(root []int, body func(), check Check, b Bounds) (*Stats, *Violation) {
 	st := &Stats{Distinct: map[uint64]bool{}, Exhaustive: true}
 	stack := [][]int{append([]int(nil), root...)}
-	opt := Options{Horizon: b.Horizon}
+	opt := Options{Horizon: b.Horizon, Keys: b.Prune}
+	type budget struct{ p, d int }
+	visited := map[[2]uint64][]budget{}
 	for len(stack) > 0 {
 		if b.MaxExecs > 0 && st.Execs >= int64(b.MaxExecs) {
 			st.Exhaustive = false
@@ -142,6 +147,23 @@ func ExploreFrom(root []int, body func(), check Check, b Bounds) (*Stats, *Viola
 		cp, cd := cost(x.Choices[:min(len(p), len(x.Choices))], b.Delay)
 		for i := len(p); i < len(x.Choices); i++ {
 			c := x.Choices[i]
+			if b.Prune && i < len(x.Keys) {
+				rem := budget{b.P - cp, b.D - cd}
+				dominated := false
+				for _, v := range visited[x.Keys[i]] {
+					if v.p >= rem.p && v.d >= rem.d {
+						dominated = true
+						break
+					}
+				}
+				if dominated {
+					// this state was expanded before with at least this much budget left:
+					// everything reachable from here has been (or will be) explored from there
+					st.Pruned += int64(len(x.Choices) - i)
+					break
+				}
+				visited[x.Keys[i]] = append(visited[x.Keys[i]], rem)
+			}
 			st.Nodes++
 			np, nd := cp, cd
 			switch c.Kind {
